@@ -11,7 +11,9 @@ import (
 
 	"semaverif/engine/harness"
 	"semaverif/engine/pool"
+	"semaverif/engine/schedx"
 	"semaverif/engine/seqx"
+	"semaverif/harness/schedlib"
 )
 
 const prop = "vec"
@@ -129,12 +131,17 @@ func factory(raw json.RawMessage) (seqx.System, error) {
 }
 
 func master(cfg *harness.Config, rep *harness.Report) {
-	rep.Rule = "all write histories up to the depth over batches built to hurt the graph (mixed add/move/remove of the vector in one batch, deletion of a whole neighbourhood, delete-all then re-insert with every node id reused, repeated moves, vectorless points, vectors added to several vectorless points in one batch with the later point first), from the empty shard and from 40 mutually equidistant points (one-hot vectors: pruning removes nothing, so the degree bound binds) with cluster-level deletes/moves/inserts, x alpha {1.1,1.5} x degreeBound {32,64} x {warm, reopened}; after every batch the bucket dump is checked: node set = vector set = entry node + live points with the field, every edge target exists and differs from its source, out-degree <= bound except the entry node, recorded max id bounds all ids, point store bijective, free list disjoint from live ids; plus a full-window search that must not fail or surface a removed point"
-	rep.Assumptions = []string{"duplicate edges are counted, not flagged (the statement does not forbid them)", "entry vector random; one insert worker"}
+	rep.Rule = "all write histories up to the depth over batches built to hurt the graph (mixed add/move/remove of the vector in one batch, deletion of a whole neighbourhood, delete-all then re-insert with every node id reused, repeated moves, vectorless points, vectors added to several vectorless points in one batch with the later point first), from the empty shard and from 40 mutually equidistant points (one-hot vectors: pruning removes nothing, so the degree bound binds) with cluster-level deletes/moves/inserts, x alpha {1.1,1.5} x degreeBound {32,64} x {warm, reopened}; after every batch the bucket dump is checked: node set = vector set = entry node + live points with the field, every edge target exists and differs from its source, out-degree <= bound except the entry node, recorded max id bounds all ids, point store bijective, free list disjoint from live ids; plus a full-window search that must not fail or surface a removed point.  WORKERS PHASE (the insert workers of one batch, which the history phases run one at a time): 2 and 3 scheduler threads around the real insertSinglePoint of one index over a memory bucket, node.go's locks redirected to the scheduler shim; programs = {mutually equidistant, lattice} points x degree bound {2,3} (thorough: 2..4; the package does not impose the HTTP minimum of 32, same code path) x alpha {1.2} (thorough: 1.0, 1.2, 2.0) x base graph of 0..bound+2 sequentially inserted points x batches of 2 and 3 inserts dealt to the workers in every order-preserving way; every interleaving at the lock operations (RLock/RUnlock/Lock-announce/Lock-acquire/Unlock of edgesMu and neighLoadMu) with at most 2 pre-emptions for two workers and 1 for three (thorough: 3 and 2), no deadlock, no worker error, then the same bucket-dump invariants and a cold full-window search"
+	rep.Assumptions = []string{"duplicate edges are counted, not flagged (the statement does not forbid them)", "entry vector random and one insert worker in the history phases; in the workers phase the entry vector is fixed, the workers are the harness's threads calling insertSinglePoint (accessor added by overlay) and the steps around them (max-node-id update, Fit, flush) are replayed from insertUpdateDelete for insert-only batches", "workers phase: sequentially consistent interleavings at lock operations; accesses outside any lock are the free-running race pass's subject (C09)"}
 	p := pool.New(pool.Options{CPUsPerWorker: 2, JobTimeout: 60 * time.Second})
 	syms := symbols(2)
 	syms48 := symbols(48)
 	if cfg.Replay != "" {
+		var sr schedx.Replay
+		if err := harness.LoadReplay(cfg.Replay, &sr); err == nil && sr.Program != nil {
+			replayWorkers(rep, sr)
+			return
+		}
 		var r seqx.Replay
 		if err := harness.LoadReplay(cfg.Replay, &r); err != nil {
 			panic(err)
@@ -184,9 +191,23 @@ func master(cfg *harness.Config, rep *harness.Report) {
 			seqx.Spec{Name: "nested-property/warm", Cfg: cfgT{Inst: sl.InstCfg{Backend: "bbolt", CacheSize: -1, Schema: schema, Proxy: true}, Dim: 2, Nested: true}, Alphabet: all, Depth: depth},
 			seqx.Spec{Name: "nested-property/cold", Cfg: cfgT{Inst: sl.InstCfg{Backend: "bbolt", CacheSize: -1, ReopenEachOp: true, Schema: schema, Proxy: true}, Dim: 2, Nested: true}, Alphabet: all, Depth: depth - 1})
 	}
-	seqx.Explore(cfg, rep, p, specs)
+	if cfg.Extra["workersonly"] == "" {
+		seqx.Explore(cfg, rep, p, specs)
+	}
+	if cfg.Extra["noworkers"] == "" {
+		workersPhase(cfg, rep)
+	}
 }
 
 func main() {
-	harness.Main("C10", seqx.Worker(factory), master, "model_checking")
+	seqW, schedW := seqx.Worker(factory), schedlib.Handler(runWorkers)
+	harness.Main("C10", func(raw json.RawMessage) (json.RawMessage, error) {
+		var probe struct {
+			Program json.RawMessage `json:"program"`
+		}
+		if json.Unmarshal(raw, &probe) == nil && probe.Program != nil {
+			return schedW(raw)
+		}
+		return seqW(raw)
+	}, master, "model_checking")
 }
